@@ -94,7 +94,7 @@ Theorem C01_json_int_digit_limit :
   dumps (JList [JInt (10 ^ 4300)]) = Err ValueError /\
   loads (repeat 49 4300) = Ok (JInt ((10 ^ 4300 - 1) / 9)) /\
   loads (repeat 49 4301) = Err ValueError.
-Proof. repeat split; vm_compute; reflexivity. Qed.
+Proof. split; [|split; [|split]]; vm_compute; reflexivity. Qed.
 Print Assumptions C01_json_int_digit_limit.
 
 (* duplicate keys in a text: the last value, at the position of the first occurrence (dict(pairs)) *)
@@ -119,7 +119,7 @@ Example C01_json_malformed :
   loads [65279; 49] = Err ParseError /\                 (* BOM *)
   loads [49; 12] = Err ParseError /\                    (* form feed is not white space *)
   loads [] = Err ParseError.
-Proof. repeat split; vm_compute; reflexivity. Qed.
+Proof. split; [|split; [|split; [|split; [|split; [|split]]]]]; vm_compute; reflexivity. Qed.
 
 (* --- non-vacuity: a nested value with quotes, backslashes, every short escape, NUL, DEL, non-ASCII BMP,
    an astral code point, lone surrogates, big ints, float tokens incl. NaN / -Infinity / -0.0, empty containers *)
